@@ -66,6 +66,10 @@ class MultiFunction:
                 for c in classobject.mro():
                     # Register classobject with handler for the first
                     # encountered superclass
+                    if not isinstance(c, UFLType) and c is not object:
+                        # Mixin outside the UFL type hierarchy (e.g.
+                        # BaseCoefficient, Counted): keep looking
+                        continue
                     try:
                         handler_name = c._ufl_handler_name_
                     except AttributeError as attribute_error:
